@@ -424,7 +424,14 @@ class Builder:
             desc = set_of(self.sel_nodes, *conds)
         self.desc = desc
         q = the if self.ir.get("quant") == "the" else an
-        self.q = q(desc)
+        if self.ir.get("constraint") and q is an:
+            # a result count constraint that every answer set satisfies: ["atleast", 0] | ["atmost", big]
+            from krrood.entity_query_language.result_quantification_constraint import AtLeast, AtMost
+
+            kind, k = self.ir["constraint"]
+            self.q = an(desc, quantification=AtLeast(k) if kind == "atleast" else AtMost(k))
+        else:
+            self.q = q(desc)
         return self.q
 
     def row(self, result, norm):
